@@ -60,7 +60,7 @@ SCORES = ["spt", "fcfs", "mwkr", "mor", "random"]
 
 def gen_cases(ctx):
     rng = ctx.rng
-    for i in range(ctx.scale(450, 15000)):
+    for i in range(ctx.scale(5000, 150000)):
         inst = gen.gen_instance(rng, None, max_jobs=rng.choice([2, 3, 4, 5, 6]), max_machines=rng.choice([2, 3, 4, 5]))
         r = rng.random()
         if r < 0.55:
@@ -81,7 +81,7 @@ def gen_cases(ctx):
                "chooser": rng.choice(["first", "random", "FIRST", "callable_last"]),
                "filter": filt, "api": rng.choice(["solve", "solve_dispatcher", "call"]),
                "seed": rng.randrange(2**31)}
-    for i in range(ctx.scale(120, 4000)):
+    for i in range(ctx.scale(1500, 40000)):
         inst = gen.gen_instance(rng, None, max_jobs=rng.choice([2, 3, 4, 5]), max_machines=rng.choice([2, 3, 4]))
         yield {"kind": "mwkr_twin", "instance": inst, "filter": gen.gen_filter_spec(rng),
                "seed": rng.randrange(2**31)}
